@@ -260,10 +260,11 @@ def gen_records(tape, fmt, max_records, noncanon=True, min_records=1, style=None
     """returns list of records; record count by the `more` pattern so that span deletion shrinks well"""
     recs = []
     ctx = {}
+    style = style or {}
     if any(k == "optint" for _, k in fmt.fields):
-        # 0: all integers, 1: all '.', 2: mixed ('.' next to integers; see known finding KF-C02-optint-mixed)
-        ctx["optint_mode"] = tape.weighted([(6, 0), (1, 1), (1 if (style or {}).get("allow_mixed_optint") else 0, 2)],
-                                           "optint_mode")
+        # 0: all integers, 1: all '.', 2: mixed ('.' next to integers)
+        ctx["optint_mode"] = tape.weighted([(6, 0), (0 if style.get("no_missing") else 1, 1),
+                                            (1 if style.get("allow_mixed_optint") else 0, 2)], "optint_mode")
     ctx["list_trailing_comma"] = tape.boolean("list_tc", 1, 3) if any(k == "listint" for _, k in fmt.fields) else False
     while len(recs) < max_records and (len(recs) < min_records or tape.more("rec.more")):
         i = len(recs)
@@ -281,11 +282,13 @@ def gen_records(tape, fmt, max_records, noncanon=True, min_records=1, style=None
             if kind in ("qual", "qualstr"):
                 rc["qual_len"] = len(texts["sequence"])
             t = gen_field(tape, kind, label, noncanon, rc)
+            if kind == "float" and style.get("float_repr"):
+                t = repr(float(t))      # the spelling Python / the library's writer uses
             texts[fname] = t
         extra = []
         recs.append({"texts": texts, "extra_cols": extra})
     # file-level decisions that must be uniform over the records
-    if fmt.allow_extra and tape.boolean("extra_cols", 1, 4):
+    if fmt.allow_extra and not style.get("no_extra") and tape.boolean("extra_cols", 1, 4):
         n_extra = 1 + tape.draw(2, "n_extra")
         if fmt.name == "vcf":
             for r in recs:
